@@ -336,6 +336,7 @@ func VerifRunJobs(sc JobsScenario, prefix []int) (*vshim.Sched, *JobsResult) {
 		for j := range mds {
 			mds[j] = NewMetadata(fmt.Sprintf("ID.ps.TOP.S%d.fork0.chnk0", j), fmt.Sprintf("/nonexistent/S%d", j))
 			idx[mds[j]] = j
+
 			verifSetState(mds[j], JobInfoFile) // queued
 		}
 		vshim.Active().UnlockHook = func(m *vshim.Mutex, tid int) {
@@ -505,6 +506,9 @@ func VerifRunLocal(sc LocalScenario, prefix []int) (*vshim.Sched, *LocalResult) 
 		for j := range sc.Jobs {
 			mds[j] = NewMetadata(fmt.Sprintf("ID.ps.TOP.S%d.fork0.chnk0", j), fmt.Sprintf("/nonexistent/S%d", j))
 			idx[mds[j]] = j
+			if j < len(sc.Killed) && sc.Killed[j] {
+				verifSetState(mds[j], Errors)
+			}
 		}
 		// the semaphores' sizes never change in this scenario, so what a
 		// request is clamped to does not depend on when it is asked
@@ -563,7 +567,14 @@ func VerifRunLocal(sc LocalScenario, prefix []int) (*vshim.Sched, *LocalResult) 
 	if s.Err != "" {
 		return s, res
 	}
-	if done != len(sc.Jobs) {
+	live := 0
+	for j := range sc.Jobs {
+		if j >= len(sc.Killed) || !sc.Killed[j] {
+			live++
+		}
+	}
+	// whether a killed job still runs is not specified; the others must
+	if done < live || done > len(sc.Jobs) {
 		viol("%d of %d jobs ran although every request fits the limits after clamping; blocked threads: %v", done, len(sc.Jobs), s.Blocked)
 	}
 	if jm != nil && (jm.centcoreSem.reserved != 0 || jm.memMBSem.reserved != 0) {
